@@ -1198,13 +1198,17 @@ def dedup_idioms(ctx, funcs, rule='SINK', exempt=('duplicates', 'unique', 'dedup
         if any(w in fi.qualname.lower() for w in exempt) or any(w in p_.lower() for p_ in fi.params() for w in exempt):
             continue
         for c in walk_local(fi.node):
-            if not (isinstance(c, ast.Call) and dotted(c.func) in ('list', 'sorted', 'tuple') and len(c.args) == 1
-                    and isinstance(c.args[0], ast.Call)):
+            if isinstance(c, ast.Call) and dotted(c.func) == 'dict.fromkeys' and len(c.args) == 1 \
+                    and not (isinstance(getattr(c, '_parent', None), ast.Call) and dotted(c._parent.func) in ('list', 'sorted', 'tuple')):
+                pass        # dict.fromkeys(xs) with one argument has no other use than an ordered de-duplication
+            elif not (isinstance(c, ast.Call) and dotted(c.func) in ('list', 'sorted', 'tuple') and len(c.args) == 1
+                      and isinstance(c.args[0], ast.Call)):
                 continue
-            inner = c.args[0]
-            nm = dotted(inner.func)
-            if nm not in ('dict.fromkeys', 'set', 'frozenset') or not inner.args:
-                continue
+            else:
+                inner = c.args[0]
+                nm = dotted(inner.func)
+                if nm not in ('dict.fromkeys', 'set', 'frozenset') or not inner.args:
+                    continue
             n += 1
             ctx.violation(rule, f"{fi.qualname}: repeated entries are kept (`{norm(c)[:50]}`)",
                           f"`{norm(c)[:60]}` collapses entries that occur more than once: a section / lot that the text names "
@@ -1321,4 +1325,149 @@ def alias_grown_in_place(ctx, funcs, rule='DEFUSE'):
                                f"on the pass that merely wanted to report them)",
                     key=f"{rule}|{fi.qualname}|alias-grown|{name}", where=loc(fi, st),
                     why=f"`{name}` aliases `{norm(src.value)}` and is augmented; whether it is a list is not decided")
+    return n
+
+
+OPTIONAL_NUMBERS = ('twp_num', 'rge_num', 'sec_num')
+
+
+def optional_number_ordering(ctx, funcs, rule='EXC'):
+    """`.twp_num` / `.rge_num` / `.sec_num` are "an int or None" (None for an
+    error or undefined component - every fallback tract has one).  An ordering
+    comparison or arithmetic on such a value without a None test raises
+    TypeError in the middle of a parse."""
+    from ..srcmodel import facts_at
+    n = 0
+    for fi in funcs:
+        # local names bound directly from such an attribute
+        opt = {}
+        for st in walk_local(fi.node):
+            if isinstance(st, ast.Assign) and len(st.targets) == 1 and isinstance(st.targets[0], ast.Name) \
+                    and isinstance(st.value, ast.Attribute) and st.value.attr in OPTIONAL_NUMBERS:
+                opt[st.targets[0].id] = norm(st.value)
+        # a name that is assigned more than once (`if num is None: num = default`) is not tracked
+        for nm_ in list(opt):
+            if sum(1 for x in walk_local(fi.node) if isinstance(x, ast.Name) and isinstance(x.ctx, ast.Store) and x.id == nm_) > 1:
+                del opt[nm_]
+        for st in ():
+            pass
+        for c in walk_local(fi.node):
+            operands = []
+            if isinstance(c, ast.Compare) and any(isinstance(o, (ast.Lt, ast.LtE, ast.Gt, ast.GtE)) for o in c.ops):
+                operands = [c.left] + list(c.comparators)
+            elif isinstance(c, ast.BinOp) and isinstance(c.op, (ast.Add, ast.Sub, ast.Mult, ast.FloorDiv, ast.Mod)):
+                operands = [c.left, c.right]
+            for o in operands:
+                txt = None
+                if isinstance(o, ast.Attribute) and o.attr in OPTIONAL_NUMBERS and not (
+                        isinstance(o.value, ast.Name) and o.value.id in ('mo', 'match')):
+                    txt = norm(o)
+                elif isinstance(o, ast.Name) and o.id in opt:
+                    txt = o.id
+                if txt is None:
+                    continue
+                n += 1
+                facts = [(t, p) for _e, t, p in facts_at(c)]
+                # short-circuit guards inside the same boolean expression: `x is not None and x > 3`
+                par = getattr(c, '_parent', None)
+                while isinstance(par, (ast.BoolOp, ast.UnaryOp, ast.IfExp)):
+                    if isinstance(par, ast.BoolOp) and isinstance(par.op, ast.And):
+                        for v in par.values:
+                            if v is c or any(x is c for x in ast.walk(v)):
+                                break
+                            facts += [(t, p) for _e, t, p in literals([(v, True)])]
+                    if isinstance(par, ast.IfExp) and (par.body is c or any(x is c for x in ast.walk(par.body))):
+                        facts += [(t, p) for _e, t, p in literals([(par.test, True)])]
+                    par = getattr(par, '_parent', None)
+                names = {txt} | ({opt[txt]} if txt in opt else set())
+                guarded = any((t in names and p) or (t in {f"{x} is None" for x in names} and not p)
+                              or (t.startswith('isinstance(') and any(x in t for x in names) and p) for t, p in facts)
+                # inside try/except TypeError
+                h = getattr(c, '_parent', None)
+                while h is not None and h is not fi.node:
+                    if isinstance(h, ast.Try) and any(hd.type is None or 'TypeError' in norm(hd.type) or 'Exception' in norm(hd.type)
+                                                      for hd in h.handlers):
+                        guarded = True
+                    h = getattr(h, '_parent', None)
+                ctx.check(guarded, rule, f"{fi.qualname}: `{norm(c)[:50]}` runs only when {txt} is a number",
+                          detail_bad=f"`{norm(c)[:60]}` uses {txt}, which is None for every tract with an error / undefined component "
+                                     f"(a description with no section, a 3-digit section, copy_all text without a Twp/Rge): "
+                                     f"TypeError escapes from the parse", key=f"{rule}|{fi.qualname}|optional-number|{txt}",
+                          where=loc(fi, c))
+    return n
+
+
+def empty_reductions(ctx, funcs, rule='EXC'):
+    """`functools.reduce(f, seq)` without an initial value, and `max(seq)` /
+    `min(seq)` of one non-literal iterable without `default=`, raise on an
+    empty sequence."""
+    from ..srcmodel import facts_at
+    n = 0
+    for fi in funcs:
+        for c in walk_local(fi.node):
+            if not isinstance(c, ast.Call):
+                continue
+            name = (dotted(c.func) or '').split('.')[-1]
+            seq = None
+            if name == 'reduce' and len(c.args) == 2:
+                seq = c.args[1]
+            elif name in ('max', 'min') and len(c.args) == 1 and not any(k.arg == 'default' for k in c.keywords) \
+                    and not isinstance(c.args[0], (ast.Tuple, ast.List, ast.Set, ast.Dict)):
+                seq = c.args[0]
+            while isinstance(seq, ast.Call) and dotted(seq.func) in ('reversed', 'list', 'tuple', 'iter', 'sorted') and seq.args:
+                seq = seq.args[0]
+            if seq is None or not isinstance(seq, ast.Name):
+                continue
+            n += 1
+            facts = [(t, p) for _e, t, p in facts_at(c)]
+            nm = seq.id
+            nonempty = any((t == nm and p) or (t in (f"len({nm}) > 0", f"len({nm}) >= 1") and p)
+                           or (t in (f"not {nm}", f"len({nm}) == 0") and not p) for t, p in facts)
+            if name == 'reduce':
+                ctx.check(nonempty, rule, f"{fi.qualname}: `{norm(c)[:50]}` is not reached with an empty sequence",
+                          detail_bad=f"`{norm(c)[:60]}` has no initial value: an empty `{nm}` (e.g. nothing left to rebuild under "
+                                     f"qq_depth 0) raises TypeError where the loop it replaces simply did nothing",
+                          key=f"{rule}|{fi.qualname}|reduce-empty|{nm}", where=loc(fi, c))
+            elif not nonempty:
+                ctx.undecided(rule, f"{fi.qualname}: `{norm(c)[:50]}` is not reached with an empty sequence",
+                              f"`{nm}` is not visibly non-empty")
+    return n
+
+
+def reorder_in_place(ctx, funcs, rule='ORDER'):
+    """`.sort()` / `.reverse()` on a list that belongs to another object
+    (`unpacker.sec_list.sort()`) or on a result list of self reorders data
+    that other code reads in reading order."""
+    n = 0
+    for fi in funcs:
+        # names that alias a list of another object (`ordered = unpacker.sec_list`)
+        alias = {}
+        for st in walk_local(fi.node):
+            if isinstance(st, ast.Assign) and len(st.targets) == 1 and isinstance(st.targets[0], ast.Name) \
+                    and isinstance(st.value, ast.Attribute) and isinstance(st.value.value, ast.Name) \
+                    and st.value.value.id not in ('self', 'cls') and st.value.attr.endswith(('_list', 'lots', 'qqs', 'tracts')):
+                alias[st.targets[0].id] = norm(st.value)
+        for c in walk_local(fi.node):
+            if isinstance(c, ast.Call) and isinstance(c.func, ast.Attribute) and c.func.attr in ('sort', 'reverse') \
+                    and isinstance(c.func.value, ast.Name) and c.func.value.id in alias:
+                n += 1
+                src = alias[c.func.value.id]
+                ctx.violation(rule, f"{fi.qualname}: `{norm(c)[:50]}` does not reorder another object's list",
+                              f"`{c.func.value.id}` is `{src}` itself (no copy), and `{norm(c)[:40]}` sorts / reverses it in place; the "
+                              f"same list is what the tracts are built from (and what find_sec / the flags report), so the "
+                              f"reading order of the sections or lots is lost - use `sorted({src})`",
+                              key=f"{rule}|{fi.qualname}|reorder|{src}", where=loc(fi, c))
+            if isinstance(c, ast.Call) and isinstance(c.func, ast.Attribute) and c.func.attr in ('sort', 'reverse') \
+                    and isinstance(c.func.value, ast.Attribute) and isinstance(c.func.value.value, ast.Name):
+                owner, attr = c.func.value.value.id, c.func.value.attr
+                if owner in ('self', 'cls') and attr.startswith('_'):
+                    continue            # the container's own backing list: sorting it is the method's job
+                if owner in ('self', 'cls'):
+                    continue
+                n += 1
+                ctx.violation(rule, f"{fi.qualname}: `{norm(c)[:50]}` does not reorder another object's list",
+                              f"`{norm(c)[:60]}` sorts / reverses `{owner}.{attr}` in place; the same list is what the tracts are "
+                              f"built from (and what find_sec / the flags report), so the reading order of the sections or "
+                              f"lots is lost - work on `sorted(...)` / a copy instead",
+                              key=f"{rule}|{fi.qualname}|reorder|{owner}.{attr}", where=loc(fi, c))
     return n
